@@ -76,16 +76,6 @@ func (ex *Exec) assumeFieldInvAll(st *State, name, term string) {
 		ex.inFieldInv = false
 		ex.vc.assume("(forall ((q_o Int)) (! (and (>= (select " + term + " q_o) 0) (<= (select " + term + " q_o) " + al + ")) :pattern ((select " + term + " q_o))))")
 	}
-	if s := ex.svSort(name); s.K == KArr && s.Elem.K == KSeq && s.Elem.Elem.K == KRef && !ex.inFieldInv {
-		// heap closure for slices of references: every element is an allocated object (or nil)
-		ex.regSV("alloc", SInt)
-		ex.inFieldInv = true
-		al := ex.get(st, "alloc")
-		ex.inFieldInv = false
-		el := s.Elem.Elem
-		nth := sqNth("(select "+term+" q_o)", "q_k", el)
-		ex.vc.assume("(forall ((q_o Int) (q_k Int)) (! (=> (and (<= 0 q_k) (< q_k " + sqLen("(select "+term+" q_o)", el) + ")) (and (>= " + nth + " 0) (<= " + nth + " " + al + "))) :pattern (" + nth + ")))")
-	}
 	if s := ex.svSort(name); ex.safety && s.K == KArr && s.Elem.K == KSeq && (s.Elem.Elem.K == KAny || s.Elem.Elem.K == KRef && s.Elem.Elem.Name != "" && s.Elem.Elem.Name != "cell") && !ex.inFieldInv {
 		// safety mode: slices of pointers / interface values stored in fields hold no nil (checked at every store)
 		el := s.Elem.Elem
@@ -167,6 +157,7 @@ func (ex *Exec) assumeFieldInvAt(st *State, name, o, v string) {
 		ex.assumeAllocated(st, v)
 	}
 	if s.K == KArr && s.Elem.K == KSeq && s.Elem.Elem.K == KRef {
+		// heap closure for a havocked slice of references (object-level loop frame): its elements are allocated objects
 		ex.regSV("alloc", SInt)
 		al := ex.get(st, "alloc")
 		el := s.Elem.Elem
